@@ -15,6 +15,8 @@ from . import solver_adapter as A
 PID = "C01"
 ALPHA_QUICK = ["a", "b", "**", "*", "/", "+", "-", "<", "==", "!", "&&", "||", "(", "f1(", "f2(", ")", ","]
 ATOMS = ["a", "b"]
+# second enumeration: every comparison operator (shorter strings)
+ALPHA_CMP = ["a", "b", "*", "+", "-", "<", "<=", ">", ">=", "==", "!=", "!", "&&", "||", "(", "f1(", ")"]
 
 
 def cfg(alphabet, maxlen, emit, source):
@@ -199,8 +201,12 @@ def run(replay=None):
         # a design-level disagreement between machine transcription and ideal; it only becomes a
         # violation if the real code reproduces it (the records are replayed below anyway)
         V.notes.append("TLC: machine spec disagrees with ideal: " + r1.cex[:500])
-    recs = r1.records
-    states, trans = r1.distinct, r1.generated
+    r1b = C.run_tlc(wd, "SolverGen", cfg(ALPHA_CMP, 3 if t == "quick" else 4, True, "enum"), extra=["-continue"])
+    if r1b.violated:
+        V.notes.append("TLC: machine spec disagrees with ideal (comparison alphabet): " + r1b.cex[:500])
+    seen_ = {tuple(x["s"]) for x in r1.records}
+    recs = r1.records + [x for x in r1b.records if tuple(x["s"]) not in seen_]
+    states, trans = r1.distinct + r1b.distinct, r1.generated + r1b.generated
     # 2. deeper strings: harness draws from the grammar, TLC is the oracle
     deep = deep_strings(ndeep, sd + 17)
     fin = os.path.join(wd, "deep.json")
@@ -232,7 +238,7 @@ def run(replay=None):
         else:
             V.ok()
     # a TLC counterexample that the code did not reproduce is a spec problem, not a violation
-    if (r1.violated or r2.violated) and V.counts["violation"] == 0:
+    if (r1.violated or r1b.violated or r2.violated) and V.counts["violation"] == 0:
         V.drift("TLC Refines counterexample not reproduced by the code")
     V.cov.update({
         "states": states, "transitions": trans,
